@@ -536,7 +536,8 @@ pub fn judge_update(s: &Session, msg: &Message, fixed_point: bool) -> (Vec<Findi
         while strip_label && 1 + 3 * (nl + 1) <= w.raw.len() && 24 * (nl + 1) <= w.raw[0] as usize {
             let g = &w.raw[1 + 3 * nl..4 + 3 * nl];
             nl += 1;
-            if g[2] & 1 == 1 || g == [0x80, 0, 0] {
+            // 0x800000 is the RFC 8277 compatibility value only as the first (single) field
+            if g[2] & 1 == 1 || (nl == 1 && g == [0x80, 0, 0]) {
                 break;
             }
         }
@@ -753,7 +754,7 @@ fn judge_update_inner(
     }
     if let Some(e) = walk_err.as_ref().filter(|_| !too_long) {
         fs.push(finding(
-            format!("C04/malformed/{}/{}", cls, e),
+            format!("C04/malformed/{}", e),
             format!("structural walk of a {} {} frame failed: {}", cls, dir, e),
         ));
     }
